@@ -829,6 +829,10 @@ def classify(unit, res):
         sec = [s for s in spans if not s.get('is_primary')]
 
         def org(span):
+            fname = span.get('file_name') or ''
+            if fname and not os.path.basename(fname).startswith(unit.name):
+                # a span in vstd / std_specs (e.g. the `requires` of a float operator): not a line of the unit
+                return dict(kind='ext', label=None), '%s:%s' % (fname, span.get('line_start'))
             ln = span['line_start'] - 1
             if 0 <= ln < len(unit.lines):
                 return unit.lines[ln][1], unit.lines[ln][0]
@@ -890,6 +894,10 @@ def classify(unit, res):
         for s in e['spans']:
             if s['label'] and ('failed' in s['label']):
                 clause = s['text']
+                if s['origin'].get('kind') == 'ext':
+                    # the failed clause lies in vstd: name the call site in the unit and where the clause is
+                    site = [t['text'] for t in e['spans'] if t['primary'] and t['origin'].get('kind') != 'ext']
+                    clause = '%s -- requires at %s' % (site[0] if site else '?', s['text'])
         e['obligation'] = '%s: %s%s' % (fn or '<lemma/prelude>', msg, (' [' + clause + ']') if clause else '')
         errors.append(e)
     return dict(errors=errors, compile_errors=compile_errors)
